@@ -62,6 +62,9 @@ impl IoKind {
 pub struct FaultSpec {
     pub k: u64,
     pub err: u8,
+    /// every component call from the k-th on fails (a device that stays broken), not only the k-th
+    #[serde(default)]
+    pub sticky: bool,
 }
 
 pub const IO_ERR_KINDS: &[io::ErrorKind] = &[
@@ -367,7 +370,7 @@ impl EnvInner {
     fn tick(&mut self, kind: IoKind, file: u32, role: Option<Role>) -> Option<FaultSpec> {
         self.clock += 1;
         let clock = self.clock;
-        let hit = self.plan.faults.iter().copied().find(|f| f.k == clock);
+        let hit = self.plan.faults.iter().copied().find(|f| f.k == clock || (f.sticky && clock > f.k));
         if let Some(f) = hit {
             let io_err = match kind {
                 IoKind::Read | IoKind::Write | IoKind::Flush | IoKind::Seek => Some(io_kind_for(f.err, kind)),
